@@ -54,6 +54,21 @@ def permitted (allowed : Option (List Cap)) (t : Tool) : Bool :=
   | none => true
   | some al => subset t.required al
 
+/-- one row of the table obtained by running the real code: a ceiling, a declaration, and per entry point whether the
+    tool body ran and whether the result reported success (the tool loop only shows whether the body ran) -/
+structure PermRow where
+  allowed : Option (List Cap)
+  req : Option (List Cap)
+  caps : Option (List Cap)
+  callRan : Bool
+  callOk : Bool
+  metRan : Bool
+  metOk : Bool
+  autoRan : Bool
+  autoOk : Bool
+  loopRan : Bool
+  deriving Repr, DecidableEq
+
 /-- which code paths test capabilities before `tool.execute` (extracted from the source) -/
 structure Guards where
   oxidative : Bool       -- `_oxidative_phosphorylation`
